@@ -28,6 +28,9 @@ THEOREMS = [
     "PyTrie.Props.NonVacuity2.csched_done",
     "PyTrie.Props.NonVacuity2.cMid1_hit",
     "PyTrie.Props.C09.stale_parent_truthful",
+    "PyTrie.Props.C09.earlier_versions_consistent",
+    "PyTrie.Props.C09.op_keeps_other_tree_consistent",
+    "PyTrie.Props.C09.old_version_read_truthful",
 ]
 RULE = ("walks over tries built by generated histories: at every step an unexplored prefix is taken with nearest_unknown or "
         "nearest_right for a (changing) query key, traversed from the root or from a TrieFrontierCache entry (stale entries "
